@@ -1,6 +1,7 @@
 import Driver.Util
 import Hpfeeds.Model.Sha1
 import Hpfeeds.Model.BrokerValid
+import Hpfeeds.Model.BrokerFault
 namespace Driver.BrokerD
 open Hpfeeds Hpfeeds.Broker Driver
 
@@ -10,6 +11,7 @@ structure St where
   rows : List (Bytes × Row) := []
   s : State := Broker.init
   invalid : Nat := 0
+  faulty : List Nat := []      -- connections whose transport refuses every write from now on (injected fault)
 
 def St.cfg (st : St) : Cfg :=
   { name := st.name
@@ -76,11 +78,19 @@ def step (st : St) (toks : List String) : St × String :=
     match unhex i with
     | some i => ({ st with rows := st.rows.filter (·.1 ≠ i) }, "ok")
     | none => (st, "bad-op")
+  | ["b.ev", "wfault", c] =>
+    match c.toNat? with
+    | some c => ({ st with faulty := c :: st.faulty }, "ok")
+    | none => (st, "bad-op")
   | "b.ev" :: rest =>
     match parseEvent rest with
     | some e =>
       let ok := okEvent st.cfg st.s e
-      ({ st with s := Broker.step st.cfg st.s e, invalid := st.invalid + (if ok then 0 else 1) },
+      -- without an injected fault the driver runs the proved model literally; with one, its extension
+      -- (`C10.no_fault_is_the_model`: they coincide when no transport is faulty)
+      let s' := if st.faulty.isEmpty then Broker.step st.cfg st.s e
+                else Broker.stepF (fun d => decide (d ∈ st.faulty)) st.cfg st.s e
+      ({ st with s := s', invalid := st.invalid + (if ok then 0 else 1) },
         if ok then "ok" else "invalid")
     | none => (st, "bad-op")
   | ["b.out", c] =>
